@@ -62,7 +62,7 @@ BOUND = {
     'transmission scenes: 16 (r,h) x 3 beams x 2 base axes x 3 kinds x 4 unit/cross-section styles x 32 motions',
 }
 REQUIRED_CLASSES = [
-    'ray_hit', 'ray_miss', 'ray_graze', 'ray_dont_care', 'ray_from_inside', 'ray_from_outside',
+    'reused_instance_equals_fresh', 'ray_hit', 'ray_miss', 'ray_graze', 'ray_dont_care', 'ray_from_inside', 'ray_from_outside',
     'ray_parallel_axis_exact', 'ray_nearly_parallel_axis', 'ray_perp_axis_exact', 'ray_clipped_at_start',
     'axis_neg_z', 'axis_pos_z', 'axis_in_plane', 'axis_no_rotation_branch', 'axis_norm_above_one',
     'quad_cheap', 'quad_medium', 'quad_expensive', 'quad_inside_ok', 'quad_mixed_units',
@@ -148,6 +148,10 @@ def _axis_class(rec, a):
 def cases(tier):
     out = []
     units = ('m', 'mm')
+    names = list(AXES)
+    for i, aname in enumerate(names if tier == 'thorough' else names[:: max(1, len(names) // 6)]):
+        for q in KINDS:
+            out.append({'kind': 'reuse', 'axis': aname, 'axis2': names[(i * 7 + 3) % len(names)], 'unit': units[i % 2], 'qkind': q})
     for unit in units:
         for bname in BASES:
             if tier == 'quick' and unit == 'mm' and bname != 'far':
@@ -629,9 +633,63 @@ def _run_trans(case, rec):
                 rec.viol(site, 'changes_under_translation', f'{mname}: max change {d:.3e} (allowed {1e-10 + cond:.3e})', motion=mname, axis=a0.tolist())
 
 
+def _run_reuse(case, rec):
+    """A Cylinder instance that has been used and is then moved / re-oriented / resized by assigning its fields must behave
+    like a freshly built cylinder with the new fields (Cylinder is a plain mutable dataclass)."""
+    from scippneutron.absorption import Material, compute_transmission_map
+    from scippneutron.atoms import ScatteringParams
+
+    axes = AXES
+    a1, a2 = axes[case['axis']], axes[case['axis2']]
+    unit = case['unit']
+    b1, b2 = BASES['near'], BASES['far']
+    q = case['qkind']
+    mat = Material(
+        scattering_params=ScatteringParams(isotope='X', absorption_cross_section=sc.scalar(0.5, unit='mm**2'), total_scattering_cross_section=sc.scalar(0.2, unit='mm**2')),
+        effective_sample_number_density=sc.scalar(1.0, unit='1/mm**3').to(unit=f'1/{unit}**3'),
+    )
+    lam = sc.array(dims=['wavelength'], values=[1.0, 4.0], unit='angstrom')
+
+    def observe(c):
+        pts, w = c.quadrature(q)
+        det = (c.center + sc.vector([0.3, 2.0, 1.0], unit=unit) * 10.0).copy()
+        det = sc.concat([det, c.center + sc.vector([-5.0, 0.1, 0.4], unit=unit) * 10.0], 'x')
+        tm = compute_transmission_map(c, mat, beam_direction=sc.vector([0.0, 0.6, 0.8]), wavelength=lam, detector_position=det, quadrature_kind=q)
+        start = sc.concat([c.center, c.center_of_base, c.center + sc.vector([9.0, 0.0, 0.0], unit=unit)], 'p')
+        li = c.beam_intersection(start, sc.vector([0.6, 0.0, 0.8]))
+        return {'points': pts, 'weights': w, 'transmission': tm.data, 'path_lengths': li, 'volume': c.volume, 'center': c.center}
+
+    def mk(a, b, r, h):
+        return Cylinder(sc.vector(a), sc.vector(b, unit=unit), sc.scalar(r, unit=unit), sc.scalar(h, unit=unit))
+
+    for field, new in (('center_of_base', sc.vector(b2, unit=unit)), ('symmetry_line', sc.vector(a2)), ('height', sc.scalar(0.7, unit=unit)), ('radius', sc.scalar(0.35, unit=unit))):
+        c = mk(a1, b1, 0.5, 1.2)
+        observe(c)  # use the instance
+        setattr(c, field, new)
+        rec.transitions += 2
+        rec.states += 1
+        got = observe(c)
+        kw = {'a': a1, 'b': b1, 'r': 0.5, 'h': 1.2}
+        kw[{'center_of_base': 'b', 'symmetry_line': 'a', 'height': 'h', 'radius': 'r'}[field]] = {'center_of_base': b2, 'symmetry_line': a2, 'height': 0.7, 'radius': 0.35}[field]
+        want = observe(mk(kw['a'], kw['b'], kw['r'], kw['h']))
+        rec.evals += 1
+        ok = True
+        for name in want:
+            rec.validated += 1
+            if not sc.identical(got[name], want[name], equal_nan=True):
+                rec.viol('Cylinder.' + ('quadrature' if name in ('points', 'weights') else 'beam_intersection' if name == 'path_lengths' else 'compute_transmission_map' if name == 'transmission' else name),
+                         'reused_instance_differs_from_fresh', f'after assigning {field} to a used Cylinder, {name} differs from a freshly built cylinder with the same fields', field=field, output=name)
+                ok = False
+        if ok:
+            rec.cls('reused_instance_equals_fresh')
+            rec.nontrivial += 1
+
+
 def run_case(case, rec):
     k = case['kind']
-    if k == 'rays':
+    if k == 'reuse':
+        _run_reuse(case, rec)
+    elif k == 'rays':
         _run_rays(case, rec)
     elif k == 'quad':
         _run_quad(case, rec)
